@@ -139,7 +139,10 @@ class C05(engine.Property):
                 "hashseed": rng.randint(0, 4294967295),
             }
         cfg["universes_as_ends"] = rng.random() < 0.3
-        if rng.random() < 0.12:
+        if rng.random() < 0.08:
+            # a vertex class with its own __setstate__ (matters across a restart)
+            cfg["vertex_classes"] = ["Vertex", "MigratingVertex"]
+        elif rng.random() < 0.12:
             # vertices with value equality: equal-but-distinct ends, hash by value
             cfg["vertex_classes"] = ["EqVertex"] if rng.random() < 0.5 else ["EqVertex", "Vertex"]
         return cfg
